@@ -145,9 +145,13 @@ package parser
 //@   ensures scOK(s.last, s.pos, len(s.s))
 //@   ensures @notfound: !found ==> s.pos == old(s.pos)
 //@   ensures @found: found ==> expHead(s.s, old(s.pos), s.pos) && digitEnd(s.s, s.pos)
+//@   ensures @nodots: ndots(s.s, old(s.pos), s.pos) == 0
+//@   ensures @alphabet: allNumBytes(s.s, old(s.pos), s.pos)
 //@   assigns s.pos, s.last
 //@ loop 1
 //@   invariant scOK(s.last, s.pos, len(s.s)) && expHead(s.s, start, s.pos)
+//@   invariant ndots(s.s, start, s.pos) == 0
+//@   invariant allNumBytes(s.s, start, s.pos)
 //@   decreases len(s.s) - s.pos
 
 //@ func parser.normalizeNumberValue
@@ -230,3 +234,106 @@ package parser
 //@   invariant len(parts) == nsemi(tokens, rangeindex + 1)
 //@   invariant joinSemi(parts, len(parts)) == source[0:start]
 //@   decreases len(tokens) - rangeindex
+
+// ---------------------------------------------------------------- ast.go: Walk
+// `trace` is the ghost sequence of nodes handed to the visitor; vis(t, n) is the
+// visitor's answer after history t. Pre/PreS/PKr are generated from the traversal
+// table in /verif/govc/genwalk.go (Appendix C of DESIGN.md).
+
+//@ func parser.Walk
+//@   use walk
+//@   ghosttrace visit
+//@   requires walkWF(n)
+//@   ensures @preorder: trace == Pre(n, Seq_Node.empty)
+//@ loop 1
+//@   invariant PreS(stack, trace) == Pre(n, Seq_Node.empty)
+//@   invariant walkWFL(stack, len(stack))
+//@   decreases stackSize(stack)
+//@ loop 2
+//@   invariant -1 <= i && i < len(n_QualifiedIdent.Parts) && 0 <= len(stack) - (len(n_QualifiedIdent.Parts) - 1 - i)
+//@   invariant forallS(t, "Seq_Node", PreS(stack, t) == PreS(stack[0:len(stack) - (len(n_QualifiedIdent.Parts) - 1 - i)], PKr(n_QualifiedIdent.Parts, i + 1, t)))
+//@   invariant PreS(stack[0:len(stack) - (len(n_QualifiedIdent.Parts) - 1 - i)], PKr(n_QualifiedIdent.Parts, 0, trace)) == Pre(n, Seq_Node.empty)
+//@   invariant walkWFL(stack, len(stack)) && walkWFL(n_QualifiedIdent.Parts, len(n_QualifiedIdent.Parts))
+//@   invariant stackSize(stack) == stackSize(stack[0:len(stack) - (len(n_QualifiedIdent.Parts) - 1 - i)]) + lsizeFrom(n_QualifiedIdent.Parts, i + 1)
+//@   invariant stackSize(stack[0:len(stack) - (len(n_QualifiedIdent.Parts) - 1 - i)]) + lsizeFrom(n_QualifiedIdent.Parts, 0) + 0 < variant(1)
+//@   decreases i + 1
+//@ loop 3
+//@   invariant -1 <= i && i < len(n_TabularExpr.Operators) && 0 <= len(stack) - (len(n_TabularExpr.Operators) - 1 - i)
+//@   invariant forallS(t, "Seq_Node", PreS(stack, t) == PreS(stack[0:len(stack) - (len(n_TabularExpr.Operators) - 1 - i)], PKr(n_TabularExpr.Operators, i + 1, t)))
+//@   invariant PreS(stack[0:len(stack) - (len(n_TabularExpr.Operators) - 1 - i)], PKr(n_TabularExpr.Operators, 0, Pre(n_TabularExpr.Source, trace))) == Pre(n, Seq_Node.empty)
+//@   invariant walkWFL(stack, len(stack)) && walkWFL(n_TabularExpr.Operators, len(n_TabularExpr.Operators))
+//@   invariant stackSize(stack) == stackSize(stack[0:len(stack) - (len(n_TabularExpr.Operators) - 1 - i)]) + lsizeFrom(n_TabularExpr.Operators, i + 1)
+//@   invariant stackSize(stack[0:len(stack) - (len(n_TabularExpr.Operators) - 1 - i)]) + lsizeFrom(n_TabularExpr.Operators, 0) + size(n_TabularExpr.Source) < variant(1)
+//@   decreases i + 1
+//@ loop 4
+//@   invariant -1 <= i && i < len(n_SortOperator.Terms) && 0 <= len(stack) - (len(n_SortOperator.Terms) - 1 - i)
+//@   invariant forallS(t, "Seq_Node", PreS(stack, t) == PreS(stack[0:len(stack) - (len(n_SortOperator.Terms) - 1 - i)], PKr(n_SortOperator.Terms, i + 1, t)))
+//@   invariant PreS(stack[0:len(stack) - (len(n_SortOperator.Terms) - 1 - i)], PKr(n_SortOperator.Terms, 0, trace)) == Pre(n, Seq_Node.empty)
+//@   invariant walkWFL(stack, len(stack)) && walkWFL(n_SortOperator.Terms, len(n_SortOperator.Terms))
+//@   invariant stackSize(stack) == stackSize(stack[0:len(stack) - (len(n_SortOperator.Terms) - 1 - i)]) + lsizeFrom(n_SortOperator.Terms, i + 1)
+//@   invariant stackSize(stack[0:len(stack) - (len(n_SortOperator.Terms) - 1 - i)]) + lsizeFrom(n_SortOperator.Terms, 0) + 0 < variant(1)
+//@   decreases i + 1
+//@ loop 5
+//@   invariant -1 <= i && i < len(n_ProjectOperator.Cols) && 0 <= len(stack) - (len(n_ProjectOperator.Cols) - 1 - i)
+//@   invariant forallS(t, "Seq_Node", PreS(stack, t) == PreS(stack[0:len(stack) - (len(n_ProjectOperator.Cols) - 1 - i)], PKr(n_ProjectOperator.Cols, i + 1, t)))
+//@   invariant PreS(stack[0:len(stack) - (len(n_ProjectOperator.Cols) - 1 - i)], PKr(n_ProjectOperator.Cols, 0, trace)) == Pre(n, Seq_Node.empty)
+//@   invariant walkWFL(stack, len(stack)) && walkWFL(n_ProjectOperator.Cols, len(n_ProjectOperator.Cols))
+//@   invariant stackSize(stack) == stackSize(stack[0:len(stack) - (len(n_ProjectOperator.Cols) - 1 - i)]) + lsizeFrom(n_ProjectOperator.Cols, i + 1)
+//@   invariant stackSize(stack[0:len(stack) - (len(n_ProjectOperator.Cols) - 1 - i)]) + lsizeFrom(n_ProjectOperator.Cols, 0) + 0 < variant(1)
+//@   decreases i + 1
+//@ loop 6
+//@   invariant -1 <= i && i < len(n_ExtendOperator.Cols) && 0 <= len(stack) - (len(n_ExtendOperator.Cols) - 1 - i)
+//@   invariant forallS(t, "Seq_Node", PreS(stack, t) == PreS(stack[0:len(stack) - (len(n_ExtendOperator.Cols) - 1 - i)], PKr(n_ExtendOperator.Cols, i + 1, t)))
+//@   invariant PreS(stack[0:len(stack) - (len(n_ExtendOperator.Cols) - 1 - i)], PKr(n_ExtendOperator.Cols, 0, trace)) == Pre(n, Seq_Node.empty)
+//@   invariant walkWFL(stack, len(stack)) && walkWFL(n_ExtendOperator.Cols, len(n_ExtendOperator.Cols))
+//@   invariant stackSize(stack) == stackSize(stack[0:len(stack) - (len(n_ExtendOperator.Cols) - 1 - i)]) + lsizeFrom(n_ExtendOperator.Cols, i + 1)
+//@   invariant stackSize(stack[0:len(stack) - (len(n_ExtendOperator.Cols) - 1 - i)]) + lsizeFrom(n_ExtendOperator.Cols, 0) + 0 < variant(1)
+//@   decreases i + 1
+//@ loop 7
+//@   invariant -1 <= i && i < len(n_SummarizeOperator.GroupBy) && 0 <= len(stack) - (len(n_SummarizeOperator.GroupBy) - 1 - i)
+//@   invariant forallS(t, "Seq_Node", PreS(stack, t) == PreS(stack[0:len(stack) - (len(n_SummarizeOperator.GroupBy) - 1 - i)], PKr(n_SummarizeOperator.GroupBy, i + 1, t)))
+//@   invariant PreS(stack[0:len(stack) - (len(n_SummarizeOperator.GroupBy) - 1 - i)], PKr(n_SummarizeOperator.GroupBy, 0, PKr(n_SummarizeOperator.Cols, 0, trace))) == Pre(n, Seq_Node.empty)
+//@   invariant walkWFL(stack, len(stack)) && walkWFL(n_SummarizeOperator.GroupBy, len(n_SummarizeOperator.GroupBy))
+//@   invariant stackSize(stack) == stackSize(stack[0:len(stack) - (len(n_SummarizeOperator.GroupBy) - 1 - i)]) + lsizeFrom(n_SummarizeOperator.GroupBy, i + 1)
+//@   invariant stackSize(stack[0:len(stack) - (len(n_SummarizeOperator.GroupBy) - 1 - i)]) + lsizeFrom(n_SummarizeOperator.GroupBy, 0) + lsizeFrom(n_SummarizeOperator.Cols, 0) < variant(1)
+//@   decreases i + 1
+//@ loop 8
+//@   invariant -1 <= i && i < len(n_SummarizeOperator.Cols) && 0 <= len(stack) - (len(n_SummarizeOperator.Cols) - 1 - i)
+//@   invariant forallS(t, "Seq_Node", PreS(stack, t) == PreS(stack[0:len(stack) - (len(n_SummarizeOperator.Cols) - 1 - i)], PKr(n_SummarizeOperator.Cols, i + 1, t)))
+//@   invariant PreS(stack[0:len(stack) - (len(n_SummarizeOperator.Cols) - 1 - i)], PKr(n_SummarizeOperator.Cols, 0, trace)) == Pre(n, Seq_Node.empty)
+//@   invariant walkWFL(stack, len(stack)) && walkWFL(n_SummarizeOperator.Cols, len(n_SummarizeOperator.Cols))
+//@   invariant stackSize(stack) == stackSize(stack[0:len(stack) - (len(n_SummarizeOperator.Cols) - 1 - i)]) + lsizeFrom(n_SummarizeOperator.Cols, i + 1)
+//@   invariant stackSize(stack[0:len(stack) - (len(n_SummarizeOperator.Cols) - 1 - i)]) + lsizeFrom(n_SummarizeOperator.Cols, 0) + 0 < variant(1)
+//@   decreases i + 1
+//@ loop 9
+//@   invariant -1 <= i && i < len(n_JoinOperator.Conditions) && 0 <= len(stack) - (len(n_JoinOperator.Conditions) - 1 - i)
+//@   invariant forallS(t, "Seq_Node", PreS(stack, t) == PreS(stack[0:len(stack) - (len(n_JoinOperator.Conditions) - 1 - i)], PKr(n_JoinOperator.Conditions, i + 1, t)))
+//@   invariant PreS(stack[0:len(stack) - (len(n_JoinOperator.Conditions) - 1 - i)], PKr(n_JoinOperator.Conditions, 0, Pre(n_JoinOperator.Right, trace))) == Pre(n, Seq_Node.empty)
+//@   invariant walkWFL(stack, len(stack)) && walkWFL(n_JoinOperator.Conditions, len(n_JoinOperator.Conditions))
+//@   invariant stackSize(stack) == stackSize(stack[0:len(stack) - (len(n_JoinOperator.Conditions) - 1 - i)]) + lsizeFrom(n_JoinOperator.Conditions, i + 1)
+//@   invariant stackSize(stack[0:len(stack) - (len(n_JoinOperator.Conditions) - 1 - i)]) + lsizeFrom(n_JoinOperator.Conditions, 0) + size(n_JoinOperator.Right) < variant(1)
+//@   decreases i + 1
+//@ loop 10
+//@   invariant -1 <= i && i < len(n_InExpr.Vals) && 0 <= len(stack) - (len(n_InExpr.Vals) - 1 - i)
+//@   invariant forallS(t, "Seq_Node", PreS(stack, t) == PreS(stack[0:len(stack) - (len(n_InExpr.Vals) - 1 - i)], PKr(n_InExpr.Vals, i + 1, t)))
+//@   invariant PreS(stack[0:len(stack) - (len(n_InExpr.Vals) - 1 - i)], PKr(n_InExpr.Vals, 0, Pre(n_InExpr.X, trace))) == Pre(n, Seq_Node.empty)
+//@   invariant walkWFL(stack, len(stack)) && walkWFL(n_InExpr.Vals, len(n_InExpr.Vals))
+//@   invariant stackSize(stack) == stackSize(stack[0:len(stack) - (len(n_InExpr.Vals) - 1 - i)]) + lsizeFrom(n_InExpr.Vals, i + 1)
+//@   invariant stackSize(stack[0:len(stack) - (len(n_InExpr.Vals) - 1 - i)]) + lsizeFrom(n_InExpr.Vals, 0) + size(n_InExpr.X) < variant(1)
+//@   decreases i + 1
+//@ loop 11
+//@   invariant -1 <= i && i < len(n_CallExpr.Args) && 0 <= len(stack) - (len(n_CallExpr.Args) - 1 - i)
+//@   invariant forallS(t, "Seq_Node", PreS(stack, t) == PreS(stack[0:len(stack) - (len(n_CallExpr.Args) - 1 - i)], PKr(n_CallExpr.Args, i + 1, t)))
+//@   invariant PreS(stack[0:len(stack) - (len(n_CallExpr.Args) - 1 - i)], PKr(n_CallExpr.Args, 0, trace)) == Pre(n, Seq_Node.empty)
+//@   invariant walkWFL(stack, len(stack)) && walkWFL(n_CallExpr.Args, len(n_CallExpr.Args))
+//@   invariant stackSize(stack) == stackSize(stack[0:len(stack) - (len(n_CallExpr.Args) - 1 - i)]) + lsizeFrom(n_CallExpr.Args, i + 1)
+//@   invariant stackSize(stack[0:len(stack) - (len(n_CallExpr.Args) - 1 - i)]) + lsizeFrom(n_CallExpr.Args, 0) + 0 < variant(1)
+//@   decreases i + 1
+//@ loop 12
+//@   invariant -1 <= i && i < len(n_RenderOperator.Props) && 0 <= len(stack) - pcountFrom(n_RenderOperator.Props, i + 1)
+//@   invariant forallS(t, "Seq_Node", PreS(stack, t) == PreS(stack[0:len(stack) - pcountFrom(n_RenderOperator.Props, i + 1)], PKprops(n_RenderOperator.Props, i + 1, t)))
+//@   invariant PreS(stack[0:len(stack) - pcountFrom(n_RenderOperator.Props, i + 1)], PKprops(n_RenderOperator.Props, 0, trace)) == Pre(n, Seq_Node.empty)
+//@   invariant walkWFL(stack, len(stack)) && walkWFprops(n_RenderOperator.Props, len(n_RenderOperator.Props))
+//@   invariant stackSize(stack) == stackSize(stack[0:len(stack) - pcountFrom(n_RenderOperator.Props, i + 1)]) + psizeFrom(n_RenderOperator.Props, i + 1)
+//@   invariant stackSize(stack[0:len(stack) - pcountFrom(n_RenderOperator.Props, i + 1)]) + psizeFrom(n_RenderOperator.Props, 0) + 0 < variant(1)
+//@   decreases i + 1
